@@ -32,6 +32,11 @@ type hopSpec struct {
 	Trace    traceSpec
 	RID      *ridConfig // nil: no request-ID middleware
 	RIDOuter bool       // request-ID middleware mounted outside (before) the trace middleware
+	// Canceler (stream hops): goa's StreamCanceler interceptor is part of the
+	// chain, "inner" (after the ID interceptors, next to the handler) or
+	// "outer" (before them); "" = not mounted. It wraps the stream and must
+	// hand the identifiers on.
+	Canceler string
 	// how this hop's handler prepares its call to the next hop
 	Stale      bool // the outgoing request already carries stale trace header/metadata values
 	ForwardRID bool // the handler forwards its own request ID as the next hop's inbound request ID
@@ -43,7 +48,7 @@ func (h hopSpec) key() string {
 	if h.RID != nil {
 		rid = fmt.Sprintf("%+v", *h.RID)
 	}
-	return fmt.Sprintf("%s,%v,%s,%s,%+v,%s,%v,%v,%v", h.Proto, h.Wire, h.Path, h.Query, h.Trace, rid, h.RIDOuter, h.Stale, h.ForwardRID)
+	return fmt.Sprintf("%s,%v,%s,%s,%+v,%s,%v,%v,%v,%s", h.Proto, h.Wire, h.Path, h.Query, h.Trace, rid, h.RIDOuter, h.Stale, h.ForwardRID, h.Canceler)
 }
 
 // wireIn is what arrived at a hop, recorded before any middleware ran.
@@ -72,6 +77,8 @@ type chainRun struct {
 	unary   [][]grpc.UnaryServerInterceptor
 	stream  [][]grpc.StreamServerInterceptor
 	errs    []string
+	// stop ends the goroutines of the StreamCanceler interceptors
+	stop context.CancelFunc
 }
 
 func (c *chainRun) errf(format string, a ...any) {
@@ -165,6 +172,12 @@ func newChainRun(hops []hopSpec) *chainRun {
 					ics = append(ics, rid)
 				}
 			}
+			switch h.Canceler {
+			case "inner":
+				ics = append(ics, grpcmw.StreamCanceler(c.stopCtx()))
+			case "outer":
+				ics = append([]grpc.StreamServerInterceptor{grpcmw.StreamCanceler(c.stopCtx())}, ics...)
+			}
 			c.stream[i] = ics
 		}
 		if h.Proto != "http" && h.Wire {
@@ -174,7 +187,23 @@ func newChainRun(hops []hopSpec) *chainRun {
 	return c
 }
 
+// stopCtx is the shutdown context handed to StreamCanceler (cancelled by close).
+func (c *chainRun) stopCtx() context.Context {
+	ctx, cancel := context.WithCancel(context.Background())
+	prev := c.stop
+	c.stop = func() {
+		cancel()
+		if prev != nil {
+			prev()
+		}
+	}
+	return ctx
+}
+
 func (c *chainRun) close() {
+	if c.stop != nil {
+		c.stop()
+	}
 	for _, s := range c.servers {
 		if s != nil {
 			s.Close()
@@ -557,6 +586,9 @@ func hopSpecGen(t *rapid.T, i int, asciiRID string) hopSpec {
 	}
 	h.Stale = rapid.IntRange(0, 3).Draw(t, label+"stale") == 0
 	h.ForwardRID = rapid.Bool().Draw(t, label+"forwardRID")
+	if h.Proto == "stream" {
+		h.Canceler = rapid.SampledFrom([]string{"", "", "inner", "outer"}).Draw(t, label+"canceler")
+	}
 	return h
 }
 
@@ -601,6 +633,9 @@ func TestChain(t *testing.T) {
 		for i, h := range hops {
 			o, in := c.obs[i], c.in[i]
 			stats.Class("chain-hop:" + h.Proto)
+			if h.Canceler != "" {
+				stats.Class("chain-hop:stream-canceler-" + h.Canceler)
+			}
 			if h.Wire {
 				stats.Class("chain-hop:" + h.Proto + "-wire")
 			}
